@@ -170,6 +170,15 @@ def apply_mod(data, mod):
             d.flat[:: max(1, d.size // 7)] = 3.5e-120
             d.flat[1] = -2.0e-310
             data.cube = attrs.evolve(data.cube, data=d)
+    elif op == "cube_layout":
+        # the same grid values in another memory layout (as a Fortran routine or a transposed evaluation returns them)
+        if data.cube is not None:
+            d = np.array(data.cube.data, dtype=float)
+            if mod["how"] == "fortran":
+                d2 = np.asfortranarray(d)
+            else:
+                d2 = np.ascontiguousarray(d.transpose(2, 1, 0)).transpose(2, 1, 0)  # a view with reversed strides
+            data.cube = attrs.evolve(data.cube, data=d2)
     elif op == "mo_aminusb_neg":
         # beta-majority open shell
         data = apply_mod(data, {"op": "mo_aminusb"})
